@@ -49,7 +49,9 @@ def wrapper_shape(ctx: Ctx):
     prog = ctx.prog
     dep = prog.func('deprecated', 'deprecated')
     mod = dep.module
-    problems: list[tuple[ast.AST, str]] = []
+    #: (node, text, fact): fact=True only for something that contradicts the property whatever the style of the wrapper; the others say
+    #: that the wrapper is not written as expected and leave the verdict open
+    problems: list[tuple[ast.AST, str, bool]] = []
     new_param = dep.positional_params()[0] if dep.positional_params() else None
     ctx.need(new_param, 'deprecated(new_func) has a first parameter')
     decorator = next((g for g in mod.all_functions if g.parent is dep), None)
@@ -60,13 +62,13 @@ def wrapper_shape(ctx: Ctx):
     # deprecated returns the decorator, the decorator returns the wrapper
     rets = [s for s in dep.body if isinstance(s, ast.Return)]
     if not (len(rets) == 1 and isinstance(rets[0].value, ast.Name) and rets[0].value.id == decorator.name):
-        problems.append((dep.node, 'deprecated() does not return its decorator'))
+        problems.append((dep.node, 'deprecated() does not return its decorator', False))
     rets = [s for s in decorator.body if isinstance(s, ast.Return)]
     if not (len(rets) == 1 and isinstance(rets[0].value, ast.Name) and rets[0].value.id == wrapper.name):
-        problems.append((decorator.node, 'the decorator does not return the wrapper'))
+        problems.append((decorator.node, 'the decorator does not return the wrapper', False))
     wa = wrapper.node.args
     if not (wa.vararg and wa.kwarg and not wa.args and not wa.kwonlyargs):
-        problems.append((wrapper.node, 'wrapper signature is not (*args, **kwargs)'))
+        problems.append((wrapper.node, 'wrapper signature is not (*args, **kwargs)', False))
         return False, problems, dep
     va, kw = wa.vararg.arg, wa.kwarg.arg
 
@@ -106,9 +108,25 @@ def wrapper_shape(ctx: Ctx):
     unknown: list[ast.AST] = []
     own_only: list[str] = []
 
+    aliases: dict[str, ast.expr] = {}
+    stores: dict[str, int] = {}
+    for n_ in walk_no_nested(wrapper.node):
+        if isinstance(n_, ast.Name) and isinstance(n_.ctx, (ast.Store, ast.Del)):
+            stores[n_.id] = stores.get(n_.id, 0) + 1
+
+    def resolve(e: ast.expr) -> ast.expr:
+        """the expression with the single-definition locals and the names given to args[0] / args[1:] written out"""
+        import copy
+
+        class T(ast.NodeTransformer):
+            def visit_Name(self, n):
+                return copy.deepcopy(aliases[n.id]) if isinstance(n.ctx, ast.Load) and n.id in aliases else n
+
+        return ast.fix_missing_locations(T().visit(inline_locals(wrapper.node, e)))
+
     def flag_ok(t: ast.expr) -> bool:
         """a harmless test about the receiver: the is-a-method flag, `args`, hasattr(type(args[0]) | args[0], new_func.__name__)"""
-        t = inline_locals(wrapper.node, t)
+        t = resolve(t)
         txt = unparse(t)
         if txt == va:
             return True
@@ -135,9 +153,9 @@ def wrapper_shape(ctx: Ctx):
             if isinstance(st, ast.Expr) and isinstance(st.value, ast.Call) and dotted(st.value.func) == 'warnings.warn':
                 cat = st.value.args[1] if len(st.value.args) > 1 else None
                 if cat is not None and unparse(cat) not in ('DeprecationWarning', 'FutureWarning', 'PendingDeprecationWarning'):
-                    problems.append((st, f'the warning category is {unparse(cat)}'))
+                    problems.append((st, f'the warning category is {unparse(cat)}', False))
                 if conds:
-                    problems.append((st, 'the warning is issued only under a condition'))
+                    problems.append((st, 'the warning is issued only under a condition', False))
                 warned = True
                 continue
             if isinstance(st, ast.If) and isinstance(st.test, ast.Name) and st.test.id == 'RAISE_EXCEPTION':
@@ -146,9 +164,9 @@ def wrapper_shape(ctx: Ctx):
                 except ValueError:
                     on = True
                 if on:
-                    problems.append((st, 'RAISE_EXCEPTION is not the constant False: every alias raises instead of forwarding'))
+                    problems.append((st, 'RAISE_EXCEPTION is not the constant False: every alias raises instead of forwarding', True))
                 if not all(isinstance(x, ast.Raise) or (isinstance(x, ast.Assign) and isinstance(x.value, (ast.JoinedStr, ast.Constant))) for x in st.body) or st.orelse:
-                    problems.append((st, 'the RAISE_EXCEPTION branch does more than raise'))
+                    problems.append((st, 'the RAISE_EXCEPTION branch does more than raise', False))
                 continue
             if isinstance(st, ast.If):
                 terms = st.test.values if isinstance(st.test, ast.BoolOp) and isinstance(st.test.op, ast.And) else [st.test]
@@ -157,29 +175,47 @@ def wrapper_shape(ctx: Ctx):
                     continue
                 unknown.append(st)
                 continue
+            if isinstance(st, ast.Assign) and len(st.targets) == 1 and isinstance(st.targets[0], ast.Tuple) and isinstance(st.value, ast.Name) and st.value.id == va:
+                # `receiver, *rest = args`: names for args[0] and args[1:]
+                els = st.targets[0].elts
+                if len(els) == 2 and isinstance(els[0], ast.Name) and isinstance(els[1], ast.Starred) and isinstance(els[1].value, ast.Name) \
+                        and all(stores.get(x) == 1 for x in (els[0].id, els[1].value.id)):
+                    aliases[els[0].id] = ast.parse(f'{va}[0]', mode='eval').body
+                    aliases[els[1].value.id] = ast.parse(f'{va}[1:]', mode='eval').body
+                    continue
+                unknown.append(st)
+                continue
             if isinstance(st, ast.Return):
-                v = inline_locals(wrapper.node, st.value) if st.value is not None else None
-                if conds:
+                v = resolve(st.value) if st.value is not None else None
+                if not isinstance(v, ast.Call):
+                    unknown.append(st)  # what is returned is not a call the rule can read
+                elif conds:
                     if is_forward(v, receiver_getattr) and unparse(v.args[0].value) == f'{va}[1:]':
                         # the receiver dispatch needs at least: there is a receiver
                         dispatch = True
+                    elif receiver_getattr(v.func):
+                        # the receiver's own replacement IS called, with other arguments than the ones the alias received
+                        problems.append((st, f'under the receiver tests the wrapper returns {unparse(v)} instead of getattr({va}[0], {new_param}.__name__)(*{va}[1:], **{kw}): the replacement does not get the arguments of the call', True))
+                    elif is_forward(v, plain_new) and unparse(v.args[0].value) == va:
+                        pass  # the captured replacement with all arguments: the plain forwarding, no dispatch here
                     else:
-                        problems.append((st, f'under the receiver tests the wrapper returns {unparse(v) if v is not None else None} instead of getattr({va}[0], {new_param}.__name__)(*{va}[1:], **{kw})'))
+                        unknown.append(st)  # the callee is chosen in a way the rule does not follow: not an accusation
                 else:
                     if is_forward(v, plain_new) and unparse(v.args[0].value) == va:
                         final_ok = True
-                    elif isinstance(v, ast.Call) and unparse(v.func) != new_param:
+                    elif not plain_new(v.func):
                         unknown.append(st)  # the callee is chosen in a way the rule does not follow (a helper, a local): not an accusation
                     else:
-                        problems.append((st, f'the wrapper returns {unparse(v) if v is not None else None} instead of {new_param}(*{va}, **{kw})'))
+                        problems.append((st, f'the wrapper returns {unparse(v)} instead of {new_param}(*{va}, **{kw}): the replacement does not get the arguments of the call', True))
                 continue
             unknown.append(st)
 
     walk(wrapper.body, [])
     if not final_ok and not unknown and not any('returns' in p[1] for p in problems):
-        problems.append((wrapper.node, f'the wrapper does not end with `return {new_param}(*{va}, **{kw})`'))
+        # every statement was read: a call that is not dispatched on the receiver falls off the end of the wrapper
+        problems.append((wrapper.node, f'the wrapper does not end with `return {new_param}(*{va}, **{kw})`', True))
     if not warned and not unknown:
-        problems.append((wrapper.node, 'the wrapper issues no warning'))
+        problems.append((wrapper.node, 'the wrapper issues no warning', True))
     wrapper_shape.unknown = unknown
     wrapper_shape.own_only = bool(own_only) and dispatch
     return dispatch, problems, dep
@@ -197,12 +233,9 @@ def _is_method_flag(decorator: FuncInfo, name: str, old_param: str) -> bool:
 
 #: obligations whose failure contradicts the property (rule, construct pattern, why); every other failure is 'not recognised'
 POSITIVE: list[tuple[str, str, str]] = [
-    ('C20.D1', r'.', 'the argument of @deprecated does not resolve to a function reachable from the alias'),
-    ('C20.D2', r'.', 'the replacement named by the decorator is not the function whose name the old name spells in the new naming scheme'),
+    # D1, D2, D6, D7 pass positive= themselves, under the exact condition that contradicts the property (see the comments there)
     ('C20.D3', r'.', 'an alias of a static replacement is not static'),
     ('C20.D4', r'.', 'resolved dispatch: on a subclass the old name runs another function than the new name'),
-    ('C20.D6', r'.', 'a target of an obsolete_params table is not a parameter of the decorated function'),
-    ('C20.D7', r'.', 'an obsolete property reads or writes another property than the one its warning names'),
 ]
 
 
@@ -229,13 +262,16 @@ def run(ctx: Ctx) -> None:
 
     dispatch, problems, dep = wrapper_shape(ctx)
     unknown = getattr(wrapper_shape, 'unknown', [])
-    if problems or not unknown:
-        ctx.add('C20.D5', 'deprecated.deprecated.wrapper', not problems, dep,
-                'wrapper forwards and only warns' if not problems else '; '.join(p[1] for p in problems),
-                detail='; '.join(p[1] for p in problems), positive=True)
-    else:
+    facts = [p for p in problems if p[2]]
+    if facts:
+        # something that contradicts the property whatever else the wrapper does
+        ctx.add('C20.D5', 'deprecated.deprecated.wrapper', False, dep, '; '.join(p[1] for p in facts), detail='; '.join(p[1] for p in facts), positive=True)
+    elif problems or unknown:
+        # anything the rule could not read leaves the verdict open
         ctx.shape('C20.D5', 'deprecated.deprecated.wrapper', False, dep, '', 'message, constant-false RAISE_EXCEPTION branch, warnings.warn, receiver dispatch under harmless tests, forwarding return; found besides: '
-                  + ' | '.join(unparse(u)[:60] for u in unknown[:3]))
+                  + ' | '.join([p[1] for p in problems] + [unparse(u)[:60] for u in unknown[:3]]))
+    else:
+        ctx.add('C20.D5', 'deprecated.deprecated.wrapper', True, dep, 'wrapper forwards and only warns')
     _check_param_wrapper(ctx)
 
     aliases: list[tuple[FuncInfo, ast.expr]] = []
@@ -243,13 +279,16 @@ def run(ctx: Ctx) -> None:
         t = deprecated_target(f)
         if t is not None:
             aliases.append((f, t))
-        elif f.decorator_call('deprecated') is not None:
-            ctx.add('C20.D1', f'{f.module.name}:{f.qualname}', False, f, '@deprecated without a replacement', 'no target')
+        elif (d0 := f.decorator_call('deprecated')) is not None:
+            # deprecated() called with nothing at all fails when the module is imported; any other spelling is not followed
+            empty = not d0.args and not d0.keywords
+            ctx.add('C20.D1', f'{f.module.name}:{f.qualname}', False if empty else None, f, '@deprecated() is called without a replacement' if empty else f'the replacement given to {unparse(d0)} is not followed', 'no target', positive=empty)
 
     for f, t in aliases:
         construct = f'{f.module.name}:{f.qualname}'
         new_name = dotted(t)
         target = None
+        unbound = None
         if f.cls is not None and isinstance(t, ast.Name) and t.id in f.cls.methods:
             target = f.cls.methods[t.id]
             if seq(target.node) > seq(f.node):
@@ -258,23 +297,47 @@ def run(ctx: Ctx) -> None:
             r = prog.resolve_expr(f.module, t)
             if r is not None and r[0] == 'func':
                 target = r[1]
-        ctx.add('C20.D1', construct, target is not None, f,
-                f'replacement {new_name} resolves' if target else f'replacement {unparse(t)} does not resolve to a function',
-                detail=unparse(t))
+            elif r is None and isinstance(t, ast.Name):
+                # a bare name that nothing binds where the decorator is evaluated: a method of the class defined further down, or a
+                # name that neither the class body nor the module defines or imports (NameError when the module is imported)
+                import builtins
+
+                m_ = f.module
+                star = any(isinstance(x, ast.ImportFrom) and any(a.name == '*' for a in x.names) for x in ast.walk(m_.tree))
+                in_class = f.cls is not None and (t.id in f.cls.assigns or any(isinstance(x, ast.Name) and x.id == t.id and isinstance(x.ctx, ast.Store) for st_ in f.cls.node.body if not isinstance(st_, (ast.FunctionDef, ast.ClassDef)) for x in ast.walk(st_)))
+                in_module = any(isinstance(x, ast.Name) and x.id == t.id and isinstance(x.ctx, ast.Store) for x in ast.walk(m_.tree)) or t.id in m_.imports or t.id in m_.classes or t.id in m_.functions
+                outer = f.parent is not None  # an alias declared inside a function: enclosing scopes not followed
+                if not star and not in_class and not in_module and not outer and not hasattr(builtins, t.id):
+                    later = f.cls is not None and t.id in f.cls.methods
+                    unbound = f'{t.id} is defined further down in the class body: the name is not bound yet when the decorator runs' if later else f'nothing binds the name {t.id} in the class body or in the module'
+        ctx.add('C20.D1', construct, True if target is not None else False if unbound else None, f,
+                f'replacement {new_name} resolves' if target else f'replacement {unparse(t)} does not resolve to a function' + (f': {unbound}' if unbound else ' the rule can follow'),
+                detail=unparse(t), positive=bool(unbound))
         if target is None:
             continue
         old, new = f.name, target.name
         doc = ast.get_docstring(f.node) or ''
         same_as = re.search(r'Same as (\w+)', doc)
-        ok = normalise(old) == normalise(new) or RENAMES.get(old) == new
-        why = ''
-        if same_as:
-            ok = same_as.group(1) == new or (ok and normalise(same_as.group(1)) == normalise(new))
-            why = f' (stub documents "Same as {same_as.group(1)}")'
+        # the names the replacement may have: the old name in the new naming scheme, the frozen rename, the one the stub documents
+        wanted = {n_ for n_ in ([RENAMES.get(old)] + ([same_as.group(1)] if same_as else [])) if n_}
+        ok = normalise(old) == normalise(new) or new in wanted or any(normalise(w_) == normalise(new) for w_ in wanted)
+        why = f' (stub documents "Same as {same_as.group(1)}")' if same_as else ''
         if ok and old.lower().startswith('log') != new.lower().startswith('log'):
             ok = False
             why = ' (log-prefix parity)'
-        ctx.add('C20.D2', construct, ok, f, f'{old} -> {new}{why}', detail=f'{old}->{new}')
+        rival = None
+        if not ok:
+            # the contradiction: ANOTHER function that carries one of those names is reachable where the replacement was looked up
+            scope = {}
+            if target.cls is not None:
+                for c_ in reversed(target.cls.mro()):
+                    scope.update(c_.methods)
+            else:
+                scope.update(target.module.functions)
+            log_ok = lambda n_: old.lower().startswith('log') == n_.lower().startswith('log')  # noqa: E731
+            rival = next((g for n_, g in scope.items() if g is not target and (n_ in wanted or normalise(n_) == normalise(old)) and log_ok(n_)), None)
+            why += f': {rival.qualname} is the function that carries the old name in the new naming scheme' if rival is not None else ': no function with the expected name found, the pair is not decided'
+        ctx.add('C20.D2', construct, True if ok else False if rival is not None else None, f, f'{old} -> {new}{why}', detail=f'{old}->{new}', positive=rival is not None)
         # D3
         if f.cls is not None:
             target_needs_no_self = target.cls is None or is_static(target)
@@ -332,8 +395,15 @@ def run(ctx: Ctx) -> None:
             continue
         table = d.args[0] if d.args else next((k.value for k in d.keywords if k.arg == 'obsolete_params'), None)
         construct = f'{f.module.name}:{f.qualname}'
+        if isinstance(table, (ast.Name, ast.Attribute)):
+            # a table kept in a constant of the module (own or imported) or of the class: read through the assignment
+            r = prog.resolve_expr(f.module, table)
+            if r is None and isinstance(table, ast.Name) and f.cls is not None and table.id in f.cls.assigns and seq(f.cls.assigns[table.id]) < seq(f.node):
+                r = ('value', f.module, f.cls.assigns[table.id])
+            if r is not None and r[0] == 'value' and isinstance(r[2], ast.Dict) and _bound_once(r[1], table):
+                table = r[2]
         if not isinstance(table, ast.Dict):
-            ctx.add('C20.D6', construct, False, f, 'obsolete_params is not a dict literal', detail=unparse(table))
+            ctx.add('C20.D6', construct, None, f, f'obsolete_params is not a dict literal the rule can read: {unparse(table)[:60]}', detail=unparse(table))
             continue
         params = set(f.params())
         extra = set()
@@ -343,10 +413,12 @@ def run(ctx: Ctx) -> None:
             try:
                 old, new = const_value(k), const_value(v)
             except ValueError:
-                ctx.add('C20.D6', construct, False, f, f'non-literal entry {unparse(k)}: {unparse(v)}', detail=unparse(k))
+                ctx.add('C20.D6', construct, None, f, f'non-literal entry {unparse(k)}: {unparse(v)}', detail=unparse(k))
                 continue
+            # contradictions: a keyword declared "ignored" that the function takes (its value is thrown away), a target that is
+            # not a parameter of the decorated function (TypeError), a target that is the new spelling of ANOTHER parameter
             if new is None:
-                ctx.add('C20.D6', f'{construct}[{old}]', old not in params, f, f'{old!r} is ignored', detail=f'{old}->None')
+                ctx.add('C20.D6', f'{construct}[{old}]', old not in params, f, f'{old!r} is ignored' + ('' if old not in params else f' although it is a parameter of {f.qualname}: the value given by the caller is thrown away'), detail=f'{old}->None', positive=True)
                 continue
             ok = new in params or new in extra
             same = normalise(old) == normalise(new) or (old, new) in KEYWORD_RENAMES
@@ -355,10 +427,25 @@ def run(ctx: Ctx) -> None:
                 msg += f': {new!r} is not a parameter of {f.qualname}'
             elif not same:
                 msg += ': old and new keyword do not name the same parameter'
-            ctx.add('C20.D6', f'{construct}[{old}]', ok and same, f, msg, detail=f'{old}->{new}')
+            ctx.add('C20.D6', f'{construct}[{old}]', ok and same, f, msg, detail=f'{old}->{new}', positive=True)
     ctx.floor('C20.D6', 25)
 
     _obsolete_properties(ctx)
+
+
+def _bound_once(module, ref: ast.expr) -> bool:
+    """the module-level constant named by ``ref`` is bound by one statement of that module and never updated through its name
+    (no second assignment, no augmented assignment, no <name>[...] = / del / .update / .pop / .setdefault / .clear on it)"""
+    name = ref.id if isinstance(ref, ast.Name) else ref.attr
+    n_store = 0
+    for x in ast.walk(module.tree):
+        if isinstance(x, ast.Name) and x.id == name and isinstance(x.ctx, (ast.Store, ast.Del)):
+            n_store += 1
+        elif isinstance(x, ast.Subscript) and isinstance(x.ctx, (ast.Store, ast.Del)) and isinstance(x.value, ast.Name) and x.value.id == name:
+            return False
+        elif isinstance(x, ast.Call) and isinstance(x.func, ast.Attribute) and x.func.attr in ('update', 'pop', 'popitem', 'setdefault', 'clear', '__setitem__') and isinstance(x.func.value, ast.Name) and x.func.value.id == name:
+            return False
+    return n_store == 1
 
 
 def _default_parameter_names(prog: Program) -> set[str]:
@@ -390,14 +477,20 @@ def _check_param_wrapper(ctx: Ctx) -> None:
     dropped: list[str] = []
     # identity: the alias decorator finds the receiver's version of a replacement through new_func.__name__, so a replacement
     # wrapped for its renamed keywords must keep its name
-    keeps = any(isinstance(d_, ast.Call) and call_name(d_) == 'wraps' and d_.args and unparse(d_.args[0]) == fn_param for d_ in wrapper.node.decorator_list) \
-        or any(isinstance(x, ast.Call) and call_name(x) == 'update_wrapper' for x in ast.walk(decorator.node)) \
+    keeps = any(isinstance(x, ast.Call) and call_name(x) in ('wraps', 'update_wrapper') and any(unparse(a_) == fn_param for a_ in list(x.args) + [k_.value for k_ in x.keywords]) for x in ast.walk(decorator.node)) \
         or any(isinstance(x, ast.Assign) and unparse(x.targets[0]).endswith('.__name__') and unparse(x.value) == f'{fn_param}.__name__' for x in ast.walk(decorator.node))
     by_name = any(isinstance(x, ast.Attribute) and x.attr == '__name__' for x in ast.walk(prog.func('deprecated', 'deprecated').node))
-    ctx.add('C20.D5', 'deprecated.deprecated_parameters.wrapper:identity', keeps or not by_name, (wrapper.file, wrapper.line),
-            'the wrapper keeps the name of the function it wraps (functools.wraps)' if keeps else
-            f'the wrapper returned by deprecated_parameters does not take the name of the function it wraps (no functools.wraps({fn_param})): its __name__ is "wrapper", and deprecated() looks the replacement up on the receiver by new_func.__name__ - '
-            'an old method name whose replacement has renamed keywords then runs the base-class version on a subclass that redefines the replacement (and the warning says "use wrapper")', 'identity', positive=True)
+    # the contradiction: the decorator hands back the bare inner function (`return wrapper`) and nothing in it copies the name of
+    # the wrapped function; when something else is returned (a helper applied to the wrapper) the name is not followed
+    bare = all(isinstance(r_.value, ast.Name) and r_.value.id == wrapper.name for r_ in walk_no_nested(decorator.node) if isinstance(r_, ast.Return)) \
+        and not any(isinstance(x, ast.Name) and x.id == wrapper.name and isinstance(x.ctx, ast.Store) for x in ast.walk(decorator.node)) \
+        and not any(isinstance(x, ast.Call) and call_name(x) in ('wraps', 'update_wrapper', 'setattr') for x in ast.walk(decorator.node)) \
+        and not any(isinstance(d_, ast.AST) for d_ in wrapper.node.decorator_list)
+    id_ok = keeps or not by_name
+    ctx.add('C20.D5', 'deprecated.deprecated_parameters.wrapper:identity', True if id_ok else False if bare else None, (wrapper.file, wrapper.line),
+            'the wrapper keeps the name of the function it wraps (functools.wraps)' if keeps else 'deprecated() does not look the replacement up by name' if id_ok else
+            f'the wrapper returned by deprecated_parameters does not take the name of the function it wraps (no functools.wraps({fn_param})): its __name__ is "{wrapper.name}", and deprecated() looks the replacement up on the receiver by new_func.__name__ - '
+            'an old method name whose replacement has renamed keywords then runs the base-class version on a subclass that redefines the replacement (and the warning says "use wrapper")', 'identity', positive=bare)
     if not (wa.vararg and wa.kwarg):
         problems.append('wrapper signature is not (*args, **kwargs)')
     else:
@@ -445,15 +538,85 @@ def _check_param_wrapper(ctx: Ctx) -> None:
                         if isinstance(st, ast.Assign) and unparse(st.value) == f'{table}[{nm}]':
                             new_var = unparse(st.targets[0])
                     stores = [unparse(n) for n in ast.walk(iff) if isinstance(n, ast.Assign) and unparse(n.targets[0]).startswith(acc + '[')]
-                    if new_var is None or f'{acc}[{new_var}] = {val}' not in stores:
+                    new_txt = f'{table}[{nm}]'
+                    if new_var is not None and sum(1 for x in ast.walk(wrapper.node) if isinstance(x, ast.Name) and x.id == new_var and isinstance(x.ctx, (ast.Store, ast.Del))) != 1:
+                        new_var = None  # rebound: the local does not name the new keyword everywhere
+                    new_names = {new_txt, f'{table}.get({nm})'} | ({new_var} if new_var else set())
+
+                    def is_store(st_) -> bool:
+                        return isinstance(st_, ast.Assign) and len(st_.targets) == 1 and isinstance(t_ := st_.targets[0], ast.Subscript) and unparse(t_.value) == acc \
+                            and unparse(t_.slice) in new_names and unparse(st_.value) == val
+
+                    if not any(is_store(n) for n in ast.walk(iff)):
                         problems.append('the value of an obsolete keyword is not stored under its new name')
                     if len(stores) != 2:
                         problems.append(f'unexpected stores into {acc}: {stores}')
-                    # every value of an obsolete keyword reaches the store: no jump out of the loop body, no test on the value
-                    jumps = [n for n in ast.walk(lp) if isinstance(n, (ast.Continue, ast.Break, ast.Return))]
-                    valtests = [unparse(n.test) for n in ast.walk(iff) if isinstance(n, ast.If) and any(isinstance(x, ast.Name) and x.id == val for x in ast.walk(n.test))]
-                    if jumps or valtests:
-                        dropped.append(f'{"a `" + unparse(jumps[0]) + "`" if jumps else "the test `" + valtests[0] + "`"} inside the keyword loop lets some values of an obsolete keyword skip the store under the new name')
+                    # every value of an obsolete keyword that HAS a new name reaches the store: the body of the membership test is
+                    # walked path by path for such a keyword (tests on the new name are decided, the branch of a keyword without a
+                    # new name is not taken).  A path that reaches the next iteration (or leaves the loop) without the store drops
+                    # the value; it is a contradiction when the only undecided tests on it are tests on the value (some values take
+                    # it), otherwise the rule does not know whether the path can be taken.
+
+                    def has_name(t) -> bool | None:
+                        if isinstance(t, ast.UnaryOp) and isinstance(t.op, ast.Not):
+                            r = has_name(t.operand)
+                            return None if r is None else not r
+                        if unparse(t) in new_names:
+                            return True
+                        if isinstance(t, ast.BoolOp):
+                            rs = [has_name(x_) for x_ in t.values]
+                            if isinstance(t.op, ast.Or):
+                                return True if any(r is True for r in rs) else False if all(r is False for r in rs) else None
+                            return False if any(r is False for r in rs) else True if all(r is True for r in rs) else None
+                        if isinstance(t, ast.Compare) and len(t.ops) == 1:
+                            a_, b_ = t.left, t.comparators[0]
+                            for x_, y_ in ((a_, b_), (b_, a_)):
+                                if unparse(x_) in new_names and isinstance(y_, ast.Constant) and (y_.value is None or (isinstance(t.ops[0], (ast.Eq, ast.NotEq)) and not y_.value)):
+                                    # compared with None / with a falsy literal: a new name is neither
+                                    return isinstance(t.ops[0], (ast.IsNot, ast.NotEq)) if isinstance(t.ops[0], (ast.Is, ast.IsNot, ast.Eq, ast.NotEq)) else None
+                        return None
+
+                    def paths(stmts, stored: bool, sure: bool, why: str):
+                        """outcomes (stored, sure, why, falls_through) of the runs of a block for a keyword with a new name"""
+                        states = [(stored, sure, why)]
+                        done = []
+                        for st_ in stmts:
+                            if not states:
+                                break
+                            if is_store(st_):
+                                states = [(True, su, w) for _s, su, w in states]
+                            elif isinstance(st_, (ast.Continue, ast.Break, ast.Return)):
+                                done += [(sd, su, w or f'a `{unparse(st_)}`', False) for sd, su, w in states]
+                                states = []
+                            elif isinstance(st_, ast.Raise):
+                                states = []  # the call fails: nothing is forwarded at all
+                            elif isinstance(st_, ast.If):
+                                d = has_name(st_.test)
+                                on_value = any(isinstance(x, ast.Name) and x.id == val for x in ast.walk(st_.test))
+                                nxt = []
+                                for sd, su, w in states:
+                                    for taken, blk in ((True, st_.body), (False, st_.orelse)):
+                                        if d is not None and taken != d:
+                                            continue
+                                        su2 = su and (d is not None or on_value)
+                                        w2 = w or (f'the test `{unparse(st_.test)}`' if d is None and on_value else '')
+                                        for sd3, su3, w3, falls in paths(blk, sd, su2, w2):
+                                            if falls:
+                                                nxt.append((sd3, su3, w3))
+                                            else:
+                                                done.append((sd3, su3, w3, False))
+                                states = nxt
+                            elif isinstance(st_, (ast.For, ast.While, ast.Try, ast.With, ast.Match)):
+                                states = [(sd, False, w) for sd, su, w in states]  # not followed
+                        return done + [(sd, su, w, True) for sd, su, w in states]
+
+                    outs = paths(iff.body, False, True, '')
+                    lost = [o for o in outs if not o[0]]
+                    if any(o[1] for o in lost):
+                        w = next(o[2] for o in lost if o[1])
+                        dropped.append(f'{w or "a path"} inside the keyword loop lets some values of an obsolete keyword that has a new name skip the store under the new name')
+                    elif lost:
+                        problems.append('whether every value of an obsolete keyword reaches the store under its new name is not decided')
                     # the branch for a truthy new name must be the one that stores
                     okloop = True
                 if not okloop and not problems:
@@ -492,33 +655,49 @@ def _obsolete_properties(ctx: Ctx) -> None:
             setter = key.endswith('.setter')
             body = [s for s in f.body if not (isinstance(s, ast.Expr) and isinstance(s.value, ast.Call) and (dotted(s.value.func) or '').endswith('logger.warning'))]
             name_ok = old == f.name
+            # `wrong`: the one statement of the alias names ANOTHER attribute / parameter than the one the warning announces - the
+            # contradiction; a body of another form is not followed (no verdict)
+            wrong = None
+
+            def self_path(e) -> str | None:
+                r_ = e
+                while isinstance(r_, ast.Attribute):
+                    r_ = r_.value
+                return unparse(e) if isinstance(e, ast.Attribute) and isinstance(r_, ast.Name) and r_.id == 'self' else None
+
             if setter:
                 val = f.positional_params()[1] if len(f.positional_params()) > 1 else 'value'
-                ok = len(body) == 1 and (
-                    unparse(body[0]) == f'self.{new} = {val}'
-                    or (
-                        isinstance(body[0], ast.Expr)
-                        and isinstance(body[0].value, ast.Call)
-                        and dotted(body[0].value.func) == 'self.biogeme_parameters.set_value'
-                        and _kw_const(body[0].value, 0, 'name') == new
-                        and unparse(_kw(body[0].value, 1, 'value')) == val
-                    )
-                )
+                one = body[0] if len(body) == 1 else None
+                is_set = isinstance(one, ast.Expr) and isinstance(one.value, ast.Call) and dotted(one.value.func) == 'self.biogeme_parameters.set_value' and unparse(_kw(one.value, 1, 'value')) == val
+                ok = one is not None and (unparse(one) == f'self.{new} = {val}' or (is_set and _kw_const(one.value, 0, 'name') == new))
+                if not ok and one is not None:
+                    if isinstance(one, ast.Assign) and len(one.targets) == 1 and unparse(one.value) == val and (sp := self_path(one.targets[0])) is not None and sp != f'self.{new}':
+                        wrong = f'writes {sp}'
+                    elif is_set and isinstance(_kw_const(one.value, 0, 'name'), str):
+                        wrong = f'sets the parameter {_kw_const(one.value, 0, "name")!r}'
             else:
                 new_getter = c.resolve(new)
-                ok = len(body) == 1 and isinstance(body[0], ast.Return) and (
-                    unparse(body[0].value) == f'self.{new}'
-                    or (
-                        isinstance(body[0].value, ast.Call)
-                        and dotted(body[0].value.func) == 'self.biogeme_parameters.get_value'
-                        and _kw_const(body[0].value, 0, 'name') == new
-                    )
+                one = body[0] if len(body) == 1 and isinstance(body[0], ast.Return) and body[0].value is not None else None
+                is_get = one is not None and isinstance(one.value, ast.Call) and dotted(one.value.func) == 'self.biogeme_parameters.get_value'
+                ok = one is not None and (
+                    unparse(one.value) == f'self.{new}'
+                    or (is_get and _kw_const(one.value, 0, 'name') == new)
                     or (new_getter is not None and [unparse(s) for s in new_getter.body] == [unparse(s) for s in body])
                 )
-            ctx.add('C20.D7', construct, ok and name_ok, f,
-                    f'obsolete property {old} {"writes" if setter else "reads"} {new}' if ok and name_ok
-                    else f'obsolete property {f.name} announces "{new} instead of {old}" but its body is: {"; ".join(unparse(s) for s in body)[:120]}',
-                    detail='; '.join(unparse(s) for s in body))
+                if not ok and one is not None:
+                    ng = new_getter.body if new_getter is not None else []
+                    ng_path = self_path(ng[0].value) if len(ng) == 1 and isinstance(ng[0], ast.Return) and ng[0].value is not None else None
+                    sp = self_path(one.value)
+                    if is_get and isinstance(_kw_const(one.value, 0, 'name'), str):
+                        wrong = f'reads the parameter {_kw_const(one.value, 0, "name")!r}'
+                    elif sp is not None and sp != f'self.{new}' and (ng_path is not None or c.resolve(sp[5:]) is not None and '.' not in sp[5:]):
+                        # another property of the object / another path than the single path the new getter returns
+                        wrong = f'returns {sp}' + (f' while {new} returns {ng_path}' if ng_path is not None else '')
+            good = bool(ok and name_ok)
+            ctx.add('C20.D7', construct, True if good else False if wrong else None, f,
+                    f'obsolete property {old} {"writes" if setter else "reads"} {new}' if good
+                    else f'obsolete property {f.name} announces "{new} instead of {old}" but ' + (wrong if wrong else f'its body is: {"; ".join(unparse(s) for s in body)[:120]}'),
+                    detail='; '.join(unparse(s) for s in body), positive=bool(wrong))
     ctx.floor('C20.D7', 6)
 
 
